@@ -395,6 +395,7 @@ pub const SOURCE_KINDS: &[&str] = &[
     "builtin-named-section-with-child",
     "empty-cli-features",
     "plus-only-env-features",
+    "builtin-flag-in-grandchild",
 ];
 
 pub struct Builder<'a> {
@@ -586,6 +587,17 @@ impl<'a> Builder<'a> {
                         self.insert_in_list(rng, &which, b);
                     }
                 }
+            }
+            "builtin-flag-in-grandchild" => {
+                // list -> custom parent -> custom child -> builtin enabled by a flag in the child's section
+                let which = (*rng.pick(&["cli", "env", "plusenv", "main"])).to_string();
+                let parent = self.new_custom();
+                let child = self.new_custom();
+                let b = self.some_builtin(rng);
+                let pv = if rng.chance(1, 3) { Some(self.value(rng)) } else { None };
+                self.p.custom.insert(parent.clone(), Section { value: None, features: Some(vec![child.clone()]), flags: vec![] });
+                self.p.custom.insert(child, Section { value: pv, features: None, flags: vec![b] });
+                self.insert_in_list(rng, &which, parent);
             }
             "empty-cli-features" => {
                 // `--features ''`: given, but names nothing (still replaces delta.features of the main section)
